@@ -2457,3 +2457,26 @@ def orphan_versions_removed(fns):
 
 
 SPECS["O20.7"] = [orphan_versions_removed]
+
+
+def recover_levels_scans(fns):
+    """O20.6b: recover_levels always lists the tables folder, consults recover_blob_files, and removes orphaned version files
+    before it returns Ok."""
+    fn = mir.find(fns, r"src/tree/mod\.rs[^>]*>::recover_levels\(")
+    a = Automaton(fn, "O20.6b recover_levels lists the tables folder, recovers / scans blob files and removes orphaned version files on every Ok path")
+    rd = calls(fn, r"(^|::)read_dir::<")
+    rb = calls(fn, r"(^|::)recover_blob_files$")
+    co = calls(fn, r"Tree::cleanup_orphaned_version$")
+    if not rd or not rb or not co:
+        raise MirError("recover_levels: read_dir / recover_blob_files / cleanup_orphaned_version not all present (%d/%d/%d)" % (len(rd), len(rb), len(co)))
+    ok_ret, err_ret = ret_blocks(fn)
+    a.var("tables").var("blobs").var("versions")
+    a.event("call:read_dir(tables folder)", [b.idx for b in rd]).on("call:read_dir(tables folder)", "tables", True)
+    a.event("call:recover_blob_files", [b.idx for b in rb]).on("call:recover_blob_files", "blobs", True)
+    a.event("call:cleanup_orphaned_version", [b.idx for b in co]).on("call:cleanup_orphaned_version", "versions", True)
+    a.event("ret_ok", ok_ret)
+    a.require("ret_ok", "(and {tables} {blobs} {versions})", "recover_levels returns Ok without having listed the tables folder / scanned the blob files / removed orphaned version files: files the recovered version does not name survive the reopen")
+    return [a]
+
+
+SPECS["O20.6"] = [recovery_scans_folder, recover_levels_scans]
